@@ -13,29 +13,31 @@ Lemma f_scratch_ge_hs : f_hs <= f_scratch.
 Proof. vm_compute. discriminate. Qed.
 
 Section FrameProofs.
+  Variable Msg : Type.
   Variables CS CR : Type.
-  Variable flat : CS -> bytes -> CS * bytes.
-  Variable unflat : CR -> bytes -> CR * option bytes.
+  Variable flat : CS -> Msg -> CS * bytes.
+  Variable unflat : CR -> bytes -> CR * option Msg.
+  Variable body_size : bytes -> option N.
   Variable max_in : N.
   Variable cs0 : CS.
   Variable cr0 : CR.
 
-  Notation fsend := (fsend CS).
+  Notation fsend := (fsend Msg CS).
   Notation frecv := (frecv CR).
-  Notation f_fill := (f_fill CS flat).
-  Notation f_out_loop := (f_out_loop CS flat).
-  Notation f_do_output := (f_do_output CS flat).
-  Notation f_turn := (f_turn CR unflat max_in).
-  Notation f_in_loop := (f_in_loop CR unflat max_in).
-  Notation f_do_input := (f_do_input CR unflat max_in).
-  Notation f_byte := (f_byte CR unflat max_in).
-  Notation f_feed := (f_feed CR unflat max_in).
-  Notation f_header := (f_header max_in).
+  Notation f_fill := (f_fill Msg CS flat).
+  Notation f_out_loop := (f_out_loop Msg CS flat).
+  Notation f_do_output := (f_do_output Msg CS flat).
+  Notation f_turn := (f_turn Msg CR unflat body_size max_in).
+  Notation f_in_loop := (f_in_loop Msg CR unflat body_size max_in).
+  Notation f_do_input := (f_do_input Msg CR unflat body_size max_in).
+  Notation f_byte := (f_byte Msg CR unflat body_size max_in).
+  Notation f_feed := (f_feed Msg CR unflat body_size max_in).
+  Notation f_header := (f_header body_size max_in).
 
   (* ==================================================================== sender *)
-  Fixpoint cs_after (c : CS) (ms : list bytes) : CS :=
+  Fixpoint cs_after (c : CS) (ms : list Msg) : CS :=
     match ms with [] => c | m :: t => cs_after (fst (flat c m)) t end.
-  Fixpoint wire_from (c : CS) (ms : list bytes) : bytes :=
+  Fixpoint wire_from (c : CS) (ms : list Msg) : bytes :=
     match ms with [] => [] | m :: t => snd (flat c m) ++ wire_from (fst (flat c m)) t end.
 
   Lemma cs_after_app c a b : cs_after c (a ++ b) = cs_after (cs_after c a) b.
@@ -50,7 +52,7 @@ Section FrameProofs.
     match fs_buf st with Some b => drop (fs_off st) b | None => [] end ++ wire_from (fs_cs st) (fs_q st).
   Definition fs_wf (st : fsend) : Prop :=
     match fs_buf st with Some b => fs_off st < blen b | None => fs_off st = 0 end.
-  Definition fs_SI (st : fsend) (ms : list bytes) : Prop :=
+  Definition fs_SI (st : fsend) (ms : list Msg) : Prop :=
     fs_wf st /\ exists done, ms = done ++ fs_q st /\ fs_cs st = cs_after cs0 done.
 
   Lemma f_fill_some st ms st1 b :
@@ -80,7 +82,7 @@ Section FrameProofs.
 
   Lemma f_send_more_spec st b maxb scr st2 x maxb' short :
     fs_buf st = Some b -> fs_off st < blen b ->
-    f_send_more CS st b maxb scr = (st2, x, maxb', short) ->
+    f_send_more Msg CS st b maxb scr = (st2, x, maxb', short) ->
     st2 = mkFS (fs_q st) (fs_buf st) (fs_off st + blen x) (fs_cs st) /\
     drop (fs_off st) b = x ++ drop (fs_off st + blen x) b /\
     blen x = N.min (N.min maxb (blen b - fs_off st)) (io_k scr) /\
@@ -113,7 +115,7 @@ Section FrameProofs.
                 match f_fill st with
                 | None => (st, acc)
                 | Some (st1, b) =>
-                    let '(st2, x, maxb', short) := f_send_more CS st1 b maxb scr in
+                    let '(st2, x, maxb', short) := f_send_more Msg CS st1 b maxb scr in
                     if short then (st2, acc ++ x) else
                     let st3 := if fs_off st2 =? blen b then mkFS (fs_q st2) None 0 (fs_cs st2) else st2 in
                     match scr with [] => (st3, acc ++ x) | _ :: scr' => f_out_loop scr' st3 maxb' (acc ++ x) end
@@ -123,7 +125,7 @@ Section FrameProofs.
       destruct (f_fill st) as [[st1 b]|] eqn:Efill; [|inversion H; subst; apply Hstop; auto].
       destruct (f_fill_some _ _ _ _ HSI Efill) as (HSI1 & Hb1 & Hrem1). rewrite <- Hrem1.
       assert (Hoff1 : fs_off st1 < blen b) by (destruct HSI1 as [Hw _]; unfold fs_wf in Hw; now rewrite Hb1 in Hw).
-      destruct (f_send_more CS st1 b maxb scr) as [[[st2 x] maxb'] short] eqn:Esm.
+      destruct (f_send_more Msg CS st1 b maxb scr) as [[[st2 x] maxb'] short] eqn:Esm.
       destruct (f_send_more_spec _ _ _ _ _ _ _ _ Hb1 Hoff1 Esm) as (-> & Hd & Hbx & -> & ->).
       assert (Hrem2 : fs_rem st1 = x ++ fs_rem (mkFS (fs_q st1) (fs_buf st1) (fs_off st1 + blen x) (fs_cs st1))).
       { unfold fs_rem. cbn. rewrite Hb1. rewrite Hd at 1. now rewrite app_assoc. }
@@ -164,7 +166,7 @@ Section FrameProofs.
               match f_fill st with
               | None => (st, [])
               | Some (st1, b) =>
-                  let '(st2, x, maxb', short) := f_send_more CS st1 b maxb scr in
+                  let '(st2, x, maxb', short) := f_send_more Msg CS st1 b maxb scr in
                   if short then (st2, [] ++ x) else
                   let st3 := if fs_off st2 =? blen b then mkFS (fs_q st2) None 0 (fs_cs st2) else st2 in
                   match scr with [] => (st3, [] ++ x) | _ :: scr' => f_out_loop scr' st3 maxb' ([] ++ x) end
@@ -174,7 +176,7 @@ Section FrameProofs.
     destruct (f_fill st) as [[st1 b]|] eqn:Efill; [|apply f_fill_none in Efill; contradiction].
     destruct (f_fill_some _ _ _ _ HSI Efill) as (HSI1 & Hb1 & Hrem1).
     assert (Hoff1 : fs_off st1 < blen b) by (destruct HSI1 as [Hw _]; unfold fs_wf in Hw; now rewrite Hb1 in Hw).
-    destruct (f_send_more CS st1 b maxb scr) as [[[st2 y] maxb'] short] eqn:Esm.
+    destruct (f_send_more Msg CS st1 b maxb scr) as [[[st2 y] maxb'] short] eqn:Esm.
     destruct (f_send_more_spec _ _ _ _ _ _ _ _ Hb1 Hoff1 Esm) as (-> & Hd & Hbx & -> & ->).
     assert (Hy : y <> []) by (intros ->; cbn in Hbx; lia).
     destruct (blen y <? N.min maxb (blen b - fs_off st1)).
@@ -278,7 +280,7 @@ Section FrameProofs.
   (* ---- a chunk that ends exactly at the end of the header *)
   Lemma feed_hdr_exact x : forall got cap cr,
     cap = f_scratch -> x <> [] -> blen got + blen x = f_hs ->
-    f_feed (fr_norm (mkR cap got cr)) x = f_hdr_done CR unflat max_in cr cap (got ++ x).
+    f_feed (fr_norm (mkR cap got cr)) x = f_hdr_done Msg CR unflat body_size max_in cr cap (got ++ x).
   Proof.
     induction x as [|b t IH]; intros got cap cr Hc Hx H; [contradiction|].
     cbn [FrameModel.f_feed]. rewrite blen_cons in H.
@@ -287,12 +289,12 @@ Section FrameProofs.
     - cbn [FrameModel.f_feed]. unfold FrameModel.f_byte, mkR. cbn [fr_err fr_buf fr_cr].
       rewrite blen_app. change (blen [b]) with 1. change (blen []) with 0 in H.
       assert (E1 : (blen got <? f_hs) = true) by lia. assert (E2 : (f_hs <=? blen got + 1) = true) by lia.
-      rewrite E1, E2. unfold bytes, byte in *. destruct (f_hdr_done CR unflat max_in cr cap (got ++ [b])). now rewrite app_nil_r.
+      rewrite E1, E2. unfold bytes, byte in *. destruct (f_hdr_done Msg CR unflat body_size max_in cr cap (got ++ [b])). now rewrite app_nil_r.
     - rewrite f_byte_partial by (rewrite blen_cons in H; lia).
       assert (Hn : fr_norm (mkR cap (got ++ [b]) cr) = mkR cap (got ++ [b]) cr).
       { apply fr_norm_nonempty. destruct got; discriminate. }
       unfold bytes, byte in *. rewrite <- Hn, IH; auto.
-      + rewrite <- app_assoc. cbn [app]. destruct (f_hdr_done CR unflat max_in cr cap (got ++ b :: b' :: t')). reflexivity.
+      + rewrite <- app_assoc. cbn [app]. destruct (f_hdr_done Msg CR unflat body_size max_in cr cap (got ++ b :: b' :: t')). reflexivity.
       + discriminate.
       + rewrite blen_app. change (blen [b]) with 1. lia.
   Qed.
@@ -300,7 +302,7 @@ Section FrameProofs.
   (* ---- a chunk that ends exactly at the end of the body *)
   Lemma feed_body_exact x : forall got cap cr,
     f_hs <= blen got -> x <> [] -> blen got + blen x = cap ->
-    f_feed (mkR cap got cr) x = f_done CR unflat cr (got ++ x).
+    f_feed (mkR cap got cr) x = f_done Msg CR unflat cr (got ++ x).
   Proof.
     induction x as [|b t IH]; intros got cap cr Hg Hx H; [contradiction|].
     cbn [FrameModel.f_feed]. rewrite blen_cons in H.
@@ -308,10 +310,10 @@ Section FrameProofs.
     - cbn [FrameModel.f_feed]. unfold FrameModel.f_byte, mkR. cbn [fr_err fr_buf fr_cr].
       rewrite blen_app. change (blen [b]) with 1. change (blen []) with 0 in H.
       assert (E1 : (blen got <? f_hs) = false) by lia. assert (E2 : (blen got + 1 =? cap) = true) by lia.
-      rewrite E1, E2. unfold bytes, byte in *. destruct (f_done CR unflat cr (got ++ [b])). now rewrite app_nil_r.
+      rewrite E1, E2. unfold bytes, byte in *. destruct (f_done Msg CR unflat cr (got ++ [b])). now rewrite app_nil_r.
     - rewrite f_byte_partial by (rewrite blen_cons in H; lia).
       rewrite IH; auto.
-      + rewrite <- app_assoc. cbn [app]. destruct (f_done CR unflat cr (got ++ b :: b' :: t')). reflexivity.
+      + rewrite <- app_assoc. cbn [app]. destruct (f_done Msg CR unflat cr (got ++ b :: b' :: t')). reflexivity.
       + rewrite blen_app. change (blen [b]) with 1. lia.
       + discriminate.
       + rewrite blen_app. change (blen [b]) with 1. lia.
@@ -334,20 +336,20 @@ Section FrameProofs.
   Lemma f_header_ge cap hdr cap1 : f_header cap hdr = Some cap1 -> f_hs <= cap1.
   Proof.
     unfold FrameModel.f_header.
-    destruct ((c_MUSCLE_MESSAGE_ENCODING_DEFAULT <=? rd32 (drop 4 hdr)) && (rd32 (drop 4 hdr) <=? c_MUSCLE_MESSAGE_ENCODING_END_MARKER - 1)); [|discriminate].
-    destruct ((rd32 hdr <=? max_in) && (rd32 hdr <=? c_MUSCLE_NO_LIMIT - f_hs)) eqn:Eb; [|discriminate].
+    destruct (body_size hdr) as [body|]; [|discriminate].
+    destruct ((body <=? max_in) && (body <=? c_MUSCLE_NO_LIMIT - f_hs)) eqn:Eb; [|discriminate].
     apply andb_true_iff in Eb. destruct Eb as [_ Eb].
     assert (Hnl : c_MUSCLE_NO_LIMIT = two32 - 1) by reflexivity.
-    destruct (rd32 hdr <=? (if f_hs <? cap then cap - f_hs else 0)).
-    - intros H. assert (cap1 = f_hs + rd32 hdr) by congruence. lia.
-    - intros H. assert (cap1 = u32 (f_hs + rd32 hdr)) by congruence. subst cap1.
+    destruct (body <=? (if f_hs <? cap then cap - f_hs else 0)).
+    - intros H. assert (cap1 = f_hs + body) by congruence. lia.
+    - intros H. assert (cap1 = u32 (f_hs + body)) by congruence. subst cap1.
       unfold u32. rewrite N.mod_small; [lia|]. rewrite f_hs_is_8 in *. unfold two32 in *. lia.
   Qed.
 
-  Definition turn_res (t : fturn CR) : frecv * list bytes * bytes :=
-    match t with FEnd _ st o p => (st, o, p) | FNext _ st _ _ p o => (st, o, p) end.
-  Definition turn_scr (t : fturn CR) (scr : list N) : Prop :=
-    match t with FEnd _ _ _ _ => True | FNext _ _ _ scr' _ _ => (length scr' < length scr)%nat end.
+  Definition turn_res (t : fturn Msg CR) : frecv * list Msg * bytes :=
+    match t with FEnd _ _ st o p => (st, o, p) | FNext _ _ st _ _ p o => (st, o, p) end.
+  Definition turn_scr (t : fturn Msg CR) (scr : list N) : Prop :=
+    match t with FEnd _ _ _ _ _ => True | FNext _ _ _ _ scr' _ _ => (length scr' < length scr)%nat end.
 
   Lemma mkR_norm cap got cr : f_hs <= blen got -> fr_norm (mkR cap got cr) = mkR cap got cr.
   Proof. intros H. apply fr_norm_nonempty. intros ->. change (blen []) with 0 in H. rewrite f_hs_is_8 in H. lia. Qed.
@@ -355,9 +357,9 @@ Section FrameProofs.
   (* ---- body phase *)
   Lemma body_phase_spec cr cap1 got1 maxb1 scr1 pipe1 outs :
     f_hs <= blen got1 -> blen got1 <= cap1 ->
-    let '(st', outs', pipe') := turn_res (f_body_phase CR unflat cr cap1 got1 maxb1 scr1 pipe1 outs) in
+    let '(st', outs', pipe') := turn_res (f_body_phase Msg CR unflat cr cap1 got1 maxb1 scr1 pipe1 outs) in
     fr_wf st' /\ exists x o, pipe1 = x ++ pipe' /\ outs' = outs ++ o /\
-      (if blen got1 =? cap1 then f_done CR unflat cr got1 else f_feed (mkR cap1 got1 cr) x) = (fr_norm st', o) /\
+      (if blen got1 =? cap1 then f_done Msg CR unflat cr got1 else f_feed (mkR cap1 got1 cr) x) = (fr_norm st', o) /\
       (blen got1 = cap1 -> x = []) /\
       (blen got1 < cap1 -> blen x = N.min (N.min maxb1 (cap1 - blen got1)) (N.min (io_k scr1) (blen pipe1))).
   Proof.
@@ -390,7 +392,7 @@ Section FrameProofs.
   Qed.
 
   Lemma body_phase_scr cr cap1 got1 maxb1 scr1 pipe1 outs :
-    blen got1 < cap1 -> 1 <= maxb1 -> turn_scr (f_body_phase CR unflat cr cap1 got1 maxb1 scr1 pipe1 outs) scr1.
+    blen got1 < cap1 -> 1 <= maxb1 -> turn_scr (f_body_phase Msg CR unflat cr cap1 got1 maxb1 scr1 pipe1 outs) scr1.
   Proof.
     intros Hlt Hm. unfold f_body_phase.
     assert (Elt : (blen got1 <? cap1) = true) by lia. rewrite Elt.
@@ -429,7 +431,7 @@ Section FrameProofs.
         change (blen []) with 0. rewrite f_hs_is_8. lia. }
     destruct Hbuf as (cap & got & -> & Hnorm & Hcap & Hgot). rewrite Hnorm. clear Hnorm Hwf.
     assert (Hpp : pipe <> [] -> 0 < blen pipe) by apply blen_pos.
-    unfold f_header_phase.
+    unfold FrameModel.f_header_phase.
     destruct (blen got <? f_hs) eqn:Ehdr.
     - (* header phase *)
       destruct (f_recv_more got f_hs maxb scr pipe) as [[[[got1 maxb1] scr1] pipe1] short] eqn:Er.
@@ -454,7 +456,7 @@ Section FrameProofs.
              assert (Eg : (f_hs <=? blen (got ++ x1)) = true) by (rewrite blen_app; lia). rewrite Eg.
              pose proof (body_phase_spec cr cap1 (got ++ x1) (maxb - blen x1) (io_tl scr) pipe1 outs
                            ltac:(rewrite blen_app; lia) ltac:(rewrite blen_app; lia)) as Hbody.
-             destruct (turn_res (f_body_phase CR unflat cr cap1 (got ++ x1) (maxb - blen x1) (io_tl scr) pipe1 outs))
+             destruct (turn_res (f_body_phase Msg CR unflat cr cap1 (got ++ x1) (maxb - blen x1) (io_tl scr) pipe1 outs))
                as [[st' outs'] pipe'].
              destruct Hbody as (Hwf' & x2 & o & Hp2 & Ho & Hfeed & Hx2 & _).
              split; auto. exists (x1 ++ x2), o. repeat split; auto.
@@ -478,7 +480,7 @@ Section FrameProofs.
     - (* body phase straight away *)
       assert (Eg : (f_hs <=? blen got) = true) by lia. rewrite Eg.
       pose proof (body_phase_spec cr cap got maxb scr pipe outs ltac:(lia) ltac:(lia)) as Hbody.
-      destruct (turn_res (f_body_phase CR unflat cr cap got maxb scr pipe outs)) as [[st' outs'] pipe'].
+      destruct (turn_res (f_body_phase Msg CR unflat cr cap got maxb scr pipe outs)) as [[st' outs'] pipe'].
       destruct Hbody as (Hwf' & x2 & o & Hp2 & Ho & Hfeed & _ & Hbx).
       assert (Ene : (blen got =? cap) = false) by lia. rewrite Ene in Hfeed.
       split; auto. exists x2, o. repeat split; auto.
@@ -497,7 +499,7 @@ Section FrameProofs.
       - exists cap, got. split; tauto.
       - exists f_scratch, []. split; [reflexivity|]. change (blen []) with 0. rewrite f_hs_is_8. lia. }
     destruct Hbuf as (cap & got & -> & Hgot).
-    unfold f_header_phase.
+    unfold FrameModel.f_header_phase.
     destruct (blen got <? f_hs) eqn:Ehdr.
     - destruct (f_recv_more got f_hs maxb scr pipe) as [[[[got1 maxb1] scr1] pipe1] short] eqn:Er.
       destruct (f_recv_more_spec _ _ _ _ _ _ _ _ _ _ Er) as (x1 & -> & Hp & Hb & -> & -> & ->).
@@ -581,33 +583,23 @@ Section FrameProofs.
      for a body m of the domain is header (size word, in-range encoding word) ++ payload, the
      receiver turns that buffer back into m, and the states are in step again. *)
   Variable sync : CS -> CR -> Prop.
-  Variable wfb : bytes -> Prop.
+  Variable wfb : Msg -> Prop.
   Hypothesis sync0 : sync cs0 cr0.
   Hypothesis codec_sync : forall cs cr m, sync cs cr -> wfb m ->
-    exists payload enc cr',
-      snd (flat cs m) = le32 (blen payload) ++ le32 enc ++ payload /\
-      c_MUSCLE_MESSAGE_ENCODING_DEFAULT <= enc <= c_MUSCLE_MESSAGE_ENCODING_END_MARKER - 1 /\
+    exists hdr payload cr',
+      snd (flat cs m) = hdr ++ payload /\ blen hdr = f_hs /\
+      body_size hdr = Some (blen payload) /\
       blen payload <= max_in /\ f_hs + blen payload < two32 /\
       unflat cr (snd (flat cs m)) = (cr', Some m) /\ sync (fst (flat cs m)) cr'.
 
   Definition idle (cr : CR) : frecv := mkFR None false cr.
 
-  Lemma f_header_frame cap payload enc :
-    cap = f_scratch ->
-    c_MUSCLE_MESSAGE_ENCODING_DEFAULT <= enc <= c_MUSCLE_MESSAGE_ENCODING_END_MARKER - 1 ->
+  Lemma f_header_frame cap hdr payload :
+    cap = f_scratch -> body_size hdr = Some (blen payload) ->
     blen payload <= max_in -> f_hs + blen payload < two32 ->
-    f_header cap (le32 (blen payload) ++ le32 enc) = Some (f_hs + blen payload).
+    f_header cap hdr = Some (f_hs + blen payload).
   Proof.
-    intros -> He Hm Hs. unfold FrameModel.f_header.
-    assert (Eenc : rd32 (drop 4 (le32 (blen payload) ++ le32 enc)) = enc).
-    { change 4 with (blen (le32 (blen payload))). rewrite drop_app_exact.
-      rewrite <- (app_nil_r (le32 enc)). apply rd32_le32.
-      assert (c_MUSCLE_MESSAGE_ENCODING_END_MARKER < two32) by (vm_compute; reflexivity). lia. }
-    assert (Ebody : rd32 (le32 (blen payload) ++ le32 enc) = blen payload).
-    { apply rd32_le32. rewrite f_hs_is_8 in Hs. lia. }
-    rewrite Eenc, Ebody.
-    assert (E1 : (c_MUSCLE_MESSAGE_ENCODING_DEFAULT <=? enc) && (enc <=? c_MUSCLE_MESSAGE_ENCODING_END_MARKER - 1) = true) by lia.
-    rewrite E1.
+    intros -> Hb Hm Hs. unfold FrameModel.f_header. rewrite Hb.
     assert (Hnl : c_MUSCLE_NO_LIMIT = two32 - 1) by reflexivity.
     assert (E2 : (blen payload <=? max_in) && (blen payload <=? c_MUSCLE_NO_LIMIT - f_hs) = true).
     { rewrite f_hs_is_8 in *. unfold two32 in *. lia. }
@@ -620,21 +612,21 @@ Section FrameProofs.
   Lemma f_feed_frame cs cr m : sync cs cr -> wfb m ->
     exists cr', f_feed (idle cr) (snd (flat cs m)) = (idle cr', [m]) /\ sync (fst (flat cs m)) cr'.
   Proof.
-    intros Hs Hm. destruct (codec_sync cs cr m Hs Hm) as (payload & enc & cr' & Hflat & Henc & Hmax & Hsz & Hun & Hs').
+    intros Hs Hm. destruct (codec_sync cs cr m Hs Hm) as (hdr & payload & cr' & Hflat & Hhl & Hbs & Hmax & Hsz & Hun & Hs').
     exists cr'. split; auto.
-    rewrite Hflat in *. rewrite app_assoc. rewrite f_feed_app.
+    rewrite Hflat in *. rewrite f_feed_app.
     assert (Hidle : idle cr = fr_norm (mkR f_scratch [] cr)) by reflexivity.
     rewrite Hidle.
-    assert (Hhl : blen (le32 (blen payload) ++ le32 enc) = f_hs) by reflexivity.
-    rewrite (feed_hdr_exact (le32 (blen payload) ++ le32 enc) [] f_scratch cr eq_refl); [|discriminate|exact Hhl].
-    cbn [app]. unfold f_hdr_done. rewrite f_header_frame; auto. rewrite Hhl.
+    assert (Hne : hdr <> []) by (intros ->; change (blen []) with 0 in Hhl; rewrite f_hs_is_8 in Hhl; lia).
+    rewrite (feed_hdr_exact hdr [] f_scratch cr eq_refl Hne); [|exact Hhl].
+    cbn [app]. unfold f_hdr_done. rewrite (f_header_frame f_scratch hdr payload); auto. rewrite Hhl.
     destruct (f_hs =? f_hs + blen payload) eqn:Ez.
     - assert (payload = []) by (apply blen_0; lia). subst payload. rewrite !app_nil_r in *.
       unfold f_done. unfold bytes, byte in *. rewrite Hun. reflexivity.
     - assert (Hp : payload <> []) by (intros ->; change (blen []) with 0 in Ez; lia).
-      fold (mkR (f_hs + blen payload) (le32 (blen payload) ++ le32 enc) cr).
+      fold (mkR (f_hs + blen payload) hdr cr).
       rewrite (feed_body_exact payload _ _ cr); auto; try (rewrite Hhl; lia).
-      unfold f_done. unfold bytes, byte in *. rewrite <- app_assoc, Hun. reflexivity.
+      unfold f_done. unfold bytes, byte in *. rewrite Hun. reflexivity.
   Qed.
 
   Lemma f_feed_wire ms : Forall wfb ms -> forall cs cr, sync cs cr ->
@@ -648,11 +640,11 @@ Section FrameProofs.
   Qed.
 
   (* ==================================================================== end to end *)
-  Definition f_wire (ms : list bytes) : bytes := wire_from cs0 ms.
-  Definition f_RRel (r : frecv) (c : bytes) (o : list bytes) : Prop :=
+  Definition f_wire (ms : list Msg) : bytes := wire_from cs0 ms.
+  Definition f_RRel (r : frecv) (c : bytes) (o : list Msg) : Prop :=
     fr_wf r /\ f_feed (idle cr0) c = (fr_norm r, o).
 
-  Definition f_sys0 := @sys0 bytes bytes fsend frecv (fs_init cs0) (fr_init cr0).
+  Definition f_sys0 := @sys0 Msg Msg fsend frecv (fs_init cs0) (fr_init cr0).
   Notation f_run := (sys_run fs_queue f_do_output f_do_input).
 
   Lemma f_S_init : fs_SI (fs_init cs0) [] /\ fs_rem (fs_init cs0) = [].
@@ -679,7 +671,7 @@ Section FrameProofs.
   Lemma f_R_init : f_RRel (fr_init cr0) [] [].
   Proof. split; [intros _; exact I|reflexivity]. Qed.
 
-  Lemma f_R_in (ms : list bytes) r c o maxb scr pipe (rest : bytes) r' o' pipe' :
+  Lemma f_R_in (ms : list Msg) r c o maxb scr pipe (rest : bytes) r' o' pipe' :
     Forall wfb ms -> f_wire ms = c ++ pipe ++ rest -> f_RRel r c o ->
     f_do_input r maxb scr pipe = (r', o', pipe') ->
     exists x, pipe = x ++ pipe' /\ f_RRel r' (c ++ x) (o ++ o').
@@ -722,29 +714,29 @@ Section FrameProofs.
 
   (* Every event list: the Messages delivered so far are a prefix, as a list of Messages, of the
      Messages queued so far: nothing lost, duplicated, merged, split, reordered or altered. *)
-  Theorem frame_prefix_safety (evs : list (event bytes)) :
+  Theorem frame_prefix_safety (evs : list (event Msg)) :
     Forall (ev_wf wfb) evs ->
     exists tl, ev_msgs evs = s_dlv (f_run f_sys0 evs) ++ tl.
   Proof.
     apply (prefix_safety fs_queue f_do_output f_do_input (fs_init cs0) (fr_init cr0) wfb f_wire
-             (fun ms : list bytes => ms) (fun o : list bytes => o) fs_rem fs_SI f_RRel);
+             (fun ms : list Msg => ms) (fun o : list Msg => o) fs_rem fs_SI f_RRel);
       [reflexivity | exact f_S_init | exact f_S_queue | exact f_S_out | exact f_R_init
       | exact f_R_in | exact f_decode_prefix].
   Qed.
 
-  Theorem frame_completeness (evs : list (event bytes)) :
+  Theorem frame_completeness (evs : list (event Msg)) :
     Forall (ev_wf wfb) evs ->
     fs_rem (s_snd (f_run f_sys0 evs)) = [] -> s_pipe (f_run f_sys0 evs) = [] ->
     s_dlv (f_run f_sys0 evs) = ev_msgs evs.
   Proof.
     intros Hf Hr Hp.
     pose proof (completeness fs_queue f_do_output f_do_input (fs_init cs0) (fr_init cr0) wfb f_wire
-             (fun ms : list bytes => ms) (fun o : list bytes => o) (fun _ => []) fs_rem fs_SI f_RRel
+             (fun ms : list Msg => ms) (fun o : list Msg => o) (fun _ => []) fs_rem fs_SI f_RRel
              eq_refl f_S_init f_S_queue f_S_out f_R_init f_R_in f_decode_complete evs Hf Hr Hp) as H.
     now rewrite app_nil_r in H.
   Qed.
 
-  Theorem frame_fair_completion (evs : list (event bytes)) (rs : list (list (event bytes))) :
+  Theorem frame_fair_completion (evs : list (event Msg)) (rs : list (list (event Msg))) :
     Forall (ev_wf wfb) evs -> Forall round rs ->
     (measure fs_rem (fun _ => 0%nat) (f_run f_sys0 evs) <= length rs)%nat ->
     let st := f_run f_sys0 (evs ++ concat rs) in
@@ -752,7 +744,7 @@ Section FrameProofs.
   Proof.
     intros Hf Hr Hm.
     pose proof (fair_completion fs_queue f_do_output f_do_input (fs_init cs0) (fr_init cr0) wfb f_wire
-             (fun ms : list bytes => ms) (fun o : list bytes => o) (fun _ => []) fs_rem fs_SI f_RRel
+             (fun ms : list Msg => ms) (fun o : list Msg => o) (fun _ => []) fs_rem fs_SI f_RRel
              eq_refl f_S_init f_S_queue f_S_out f_R_init f_R_in f_decode_complete (fun _ => 0%nat)) as H.
     cbv zeta in *. rewrite <- (app_nil_r (s_dlv _)). apply H; auto.
     - intros s ms maxb scr s' x _ Hs Ho. split; [lia|]. intros Hrem Hmx Hk. left.
@@ -765,7 +757,7 @@ Section FrameProofs.
 
   (* the receiver is back in its idle state (no partial Message buffered) once everything sent
      has been consumed *)
-  Theorem frame_receiver_idle (evs : list (event bytes)) :
+  Theorem frame_receiver_idle (evs : list (event Msg)) :
     Forall (ev_wf wfb) evs ->
     fs_rem (s_snd (f_run f_sys0 evs)) = [] -> s_pipe (f_run f_sys0 evs) = [] ->
     exists cr', fr_norm (s_rcv (f_run f_sys0 evs)) = idle cr'.
